@@ -17,12 +17,12 @@ class BuildModel(KModel):
         return super().call(name, cal, args, e, frame)
 
 
-def extrapolate_selection(chk, lib, rule):
+def extrapolate_selection(chk, lib, rule, flags=(False, True)):
     b = anchor(chk, lib, BUILD, rule)
     if b is None:
         return
     n = 0
-    for flag in (False, True):
+    for flag in flags:
         for bc in ('NotAKnot', 'Natural', 'Clamped', 'Periodic', 'Individual'):
             want = 'No' if not flag else ('Periodic' if bc == 'Periodic' else 'Yes')
             fields = {'0': Obj('bounds')} if bc == 'Individual' else {}
